@@ -67,7 +67,18 @@ pub fn run(ctx: Ctx) -> ! {
         }
     };
     crate::quiet::silence_stderr();
-    for base in bases::bases() {
+    // every base also in a variant that carries auxiliary data with the right
+    // hash (the ledger size has a different last part then: aux bytes, not null)
+    let mut all_bases = vec![];
+    for b in bases::bases() {
+        let mut with_aux = b.clone();
+        with_aux.tx.aux = true;
+        with_aux.tx.aux_hash = txlab::HashSpec::Right;
+        with_aux.base = format!("{}+aux", with_aux.base);
+        all_bases.push(b);
+        all_bases.push(with_aux);
+    }
+    for base in all_bases {
         let era = base.era;
         let p0 = probe(&base);
         note(&p0);
